@@ -17,15 +17,15 @@ ASSUMPTIONS = [
     'Coq 8.16.1 kernel + vm_compute; theorems over the real-number instance of the model (exact tier)',
     'model = code: Loop3D::test_point / Polygon3D::test_point compared answer by answer (bit-exact inputs, exact outcome class)',
     'float vs exact evaluation away from the tolerance bands is sampled by the exact-rational winding-number oracle, not proved',
-    'exact-tier theorems assume an exactly planar loop and query point; the hypotheses they are forced to add (ray long enough, generic ray, point '
-    'not within the on-edge shortcut) are recorded as known findings',
+    'exact-tier theorems assume an exactly planar loop and query point; the hypotheses they are forced to add (generic ray, point not within the '
+    'on-edge shortcut) are recorded as known findings; the former length hypothesis (finding C05:ray-too-short) is discharged for the live code '
+    '(fix 6f318c4) and kept on record for the code before the fix (C05_pinned_* about Model/PinnedLoop.v)',
 ]
-THEOREMS = ['C05_open_loop_is_error', 'C05_off_plane_is_outside', 'C05_polygon_is_outer_and_not_hole', 'C05_test_point_counts_crossings', 'C05_intersection_solve_exact', 'C05_crossing_is_geometric', 'C05_long_segment_is_ray', 'C05_plane_coordinates', 'C05_ray_parity_is_fan_parity', 'C05_ray_parity_direction_independent', 'C05_test_point_fan_parity_partial', 'C05_test_point_is_winding_parity_partial', 'C05_test_point_is_membership_partial', 'C05_answer_independent_of_ray_partial', 'C05_patched_ray_long_enough', 'C05_patched_test_point_counts_ray_crossings', 'C05_ray_too_short_refuted', 'C05_on_edge_tolerance_refuted', 'C05_on_edge_parameter_refuted', 'C05_vertex_grazing_refuted']
+THEOREMS = ['C05_open_loop_is_error', 'C05_off_plane_is_outside', 'C05_polygon_is_outer_and_not_hole', 'C05_test_point_counts_crossings', 'C05_intersection_solve_exact', 'C05_crossing_is_geometric', 'C05_long_segment_is_ray', 'C05_ray_long_enough', 'C05_test_point_counts_ray_crossings', 'C05_plane_coordinates', 'C05_ray_parity_is_fan_parity', 'C05_ray_parity_direction_independent', 'C05_test_point_fan_parity_partial', 'C05_test_point_is_winding_parity_partial', 'C05_test_point_is_membership_partial', 'C05_answer_independent_of_ray_partial', 'C05_pinned_test_point_counts_crossings', 'C05_pinned_test_point_is_winding_parity_if_long_enough', 'C05_pinned_length_hypothesis_fails', 'C05_pinned_ray_too_short_refuted', 'C05_on_edge_tolerance_refuted', 'C05_on_edge_parameter_refuted', 'C05_vertex_grazing_refuted']
 
 def streams(tier):
     if tier == 'quick': return [Stream('C05', 150)]
     if tier == 'search': return [Stream('C05', 500)]
-    if tier == 'patched': return [Stream('C05p', 300)]     # only against a crate carrying the proposed ray-length repair (NOTES.md)
     return [Stream('C05', 1500), Stream('C05', 500, release=True)]
 
 def fls(bits, st):
@@ -82,17 +82,19 @@ def on_edge_shortcut(L, q):
                 best = 'parameter'
     return best
 
-PATCHED = [False]     # set per call by judge(): the stream C05p runs the crate with the proposed repair
-
 def ray_of(L, q):
+    """the cast segment of test_point (since fix 6f318c4): direction q - m (m = midpoint of the first stored edge), length
+    max(2 x distance to the farthest vertex, 1000); a rational value within 1e-6 of that length is enough for the class predicates"""
+    import math
     m = scale(add(L['vs'][0], L['vs'][1]), Fr(1, 2))
-    if PATCHED[0]:
-        # repaired code: same direction, length max(2 x distance to the farthest vertex, 1000) (a rational over-estimate of the length is enough here)
-        reach2 = max(len2(sub(v, q)) for v in L['vs']); dir_ = sub(q, m); l2 = len2(dir_)
-        if l2 == 0: return dir_
-        import math
-        k = Fr(max(2 * math.sqrt(float(reach2)), 1000.0) / math.sqrt(float(l2)) * 1.000001)
-        return scale(dir_, k)
+    reach2 = max(len2(sub(v, q)) for v in L['vs']); dir_ = sub(q, m); l2 = len2(dir_)
+    if l2 == 0: return dir_
+    k = Fr(max(2 * math.sqrt(float(reach2)), 1000.0) / math.sqrt(float(l2)) * 1.000001)
+    return scale(dir_, k)
+
+def old_ray_of(L, q):
+    """the cast segment before fix 6f318c4: 1000 (q - m)"""
+    m = scale(add(L['vs'][0], L['vs'][1]), Fr(1, 2))
     return scale(sub(q, m), 1000)
 
 def grazes_vertex(L, q):
@@ -131,9 +133,10 @@ def truth(L, q):
     return (wn_loop(L, q, ax) != 0, 'in-plane')
 
 def end_inside(L, q):
-    """class predicate of C05:ray-too-short: the far end q + 1000 (q - m) of the cast segment is still inside the outline or on it
-    (within 2e-5), so the segment does not leave the polygon"""
-    e = add(q, ray_of(L, q))
+    """class predicate of C05:ray-too-short (FIXED by 6f318c4; kept to name a regression): the far end q + 1000 (q - m) of the cast
+    segment of the code BEFORE the fix is still inside the outline or on it (within 2e-5).  The entry in known_findings.json is
+    "fixed": a failure with this signature is reported as a violation"""
+    e = add(q, old_ray_of(L, q))
     if min(dist2_point_seg3(e, a, b) for a, b in edges(L['vs'])) <= MARGIN2: return True
     return wn_loop(L, e, dominant_axis(L['n'])) != 0
 
@@ -143,12 +146,12 @@ def explain(L, q, got):
         oe = on_edge_shortcut(L, q)
         if oe: return 'C05:on-edge-' + oe
     if grazes_vertex(L, q): return 'C05:vertex-grazing'
-    if not PATCHED[0] and end_inside(L, q): return 'C05:ray-too-short'
     if near_parallel_crossing(L, q): return 'C05:near-parallel-edge'
+    if end_inside(L, q): return 'C05:ray-too-short'
     return 'C05:wrong-answer'
 
 ORDER = ['C05:panic', 'C05:error', 'C05:open-loop-accepted', 'C05:polygon-combination', 'C05:off-plane-inside', 'C05:wrong-answer', 'C05:near-parallel-edge',
-         'C05:vertex-grazing', 'C05:on-edge-parameter', 'C05:on-edge-tolerance', 'C05:ray-too-short']
+         'C05:ray-too-short', 'C05:vertex-grazing', 'C05:on-edge-parameter', 'C05:on-edge-tolerance']
 
 def judge_loop(L, p, r, where, what):
     """one loop test: r = answer class; returns (signature, message) or None"""
@@ -169,7 +172,6 @@ def judge_loop(L, p, r, where, what):
 def judge(c, st):
     """all failures of the case: list of (signature, message)"""
     out = []
-    PATCHED[0] = bool(st is not None and getattr(st, 'name', '') == 'C05p')
     O = decode_loop(c['outer'], st); H = [decode_loop(h, st) for h in c['holes']]
     for q in c['queries']:
         pf = fls(q['p'], st)
